@@ -5,7 +5,42 @@
 PARENTS = "forall(j, 0, lenparents, 0 <= parents[j] < outlength)"
 
 # ---- count / countnonzero / sum / prod / min / max and their bool variants: one init loop, one fold loop
-for name in ["awkward_reduce_count_64", "awkward_reduce_countnonzero", "awkward_reduce_sum", "awkward_reduce_prod",
+# Functional contract from the property statement (C03): the result of group p is the fold, in element
+# order, over exactly the elements whose parent is p; an empty group yields the identity.  G(p, n) is the
+# ghost fold of the first n elements restricted to group p (defining axioms below).
+def FOLD(term):
+    return ["forall(p, 0, outlength, G(p, 0) == 0)",
+            "forall(p, 0, outlength, forall(n, 0, lenparents, G(p, n + 1) == G(p, n) + ite(parents[n] == p, %s, 0)))" % term]
+
+
+FOLD_LOOPS = {"L0": ["0 <= i", "forall(p, 0, i, toptr[p] == 0)"],
+              "L1": ["0 <= i", "i <= lenparents", "forall(p, 0, outlength, toptr[p] == G(p, i))"]}
+FOLD_POST = ["forall(p, 0, outlength, toptr[p] == G(p, lenparents))"]
+
+K("awkward_reduce_count_64",
+  extents={"toptr": "outlength", "parents": "lenparents"},
+  requires=[PARENTS], ghost={"G": (["p", "n"], None)}, axioms=FOLD("1"),
+  loops=FOLD_LOOPS, ensures_ok=FOLD_POST,
+  serves=["C03", "C12", "C13"])
+
+K("awkward_reduce_sum",
+  extents={"toptr": "outlength", "fromptr": "lenparents", "parents": "lenparents"},
+  requires=[PARENTS],
+  # the 64-bit signed integer sums (mathematical integers): sum of the group's elements
+  per_spec={"reduce_sum_int64_int": {"ghost": {"G": (["p", "n"], None)}, "axioms": FOLD("fromptr[n]"),
+                                     "loops": FOLD_LOOPS, "ensures_ok": FOLD_POST}},
+  serves=["C03", "C12", "C13"])
+
+K("awkward_reduce_countnonzero",
+  extents={"toptr": "outlength", "fromptr": "lenparents", "parents": "lenparents"},
+  requires=[PARENTS],
+  per_spec={"countnonzero_int": {"ghost": {"G": (["p", "n"], None)}, "axioms": FOLD("ite(fromptr[n] != 0, 1, 0)"),
+                                 "loops": FOLD_LOOPS, "ensures_ok": FOLD_POST},
+            "countnonzero_uint": {"ghost": {"G": (["p", "n"], None)}, "axioms": FOLD("ite(fromptr[n] != 0, 1, 0)"),
+                                  "loops": FOLD_LOOPS, "ensures_ok": FOLD_POST}},
+  serves=["C03", "C12", "C13"])
+
+for name in ["awkward_reduce_prod",
              "awkward_reduce_sum_bool", "awkward_reduce_prod_bool", "awkward_reduce_min", "awkward_reduce_max",
              "awkward_reduce_sum_int32_bool_64", "awkward_reduce_sum_int64_bool_64",
              "awkward_reduce_prod_int32_bool_64", "awkward_reduce_prod_int64_bool_64"]:
@@ -26,14 +61,29 @@ for name in ["awkward_reduce_countnonzero_complex", "awkward_reduce_sum_complex"
 # ---- argmin / argmax: toptr[p] is -1 or the position of an element of group p seen so far
 ARG_INV0 = "forall(p, 0, k, toptr[p] == -1)"
 ARG_INV1 = "forall(p, 0, outlength, toptr[p] == -1 or (0 <= toptr[p] < i and parents[toptr[p]] == p))"
-for name in ["awkward_reduce_argmax", "awkward_reduce_argmin", "awkward_reduce_argmax_bool_64", "awkward_reduce_argmin_bool_64"]:
+def ARG_FIRST(cmp, n):
+    # the recorded position is the FIRST element of the group attaining the extremum; an empty group keeps -1
+    return ["forall(p, 0, outlength, implies(toptr[p] != -1, forall(q, 0, %s, implies(parents[q] == p, fromptr[q] %s fromptr[toptr[p]] and implies(fromptr[q] == fromptr[toptr[p]], toptr[p] <= q)))))" % (n, cmp),
+            "forall(p, 0, outlength, implies(toptr[p] == -1, forall(q, 0, %s, parents[q] != p)))" % n]
+
+
+for name, cmp in [("awkward_reduce_argmax", "<="), ("awkward_reduce_argmin", ">=")]:
     K(name,
       extents={"toptr": "outlength", "fromptr": "lenparents", "parents": "lenparents"},
       requires=[PARENTS],
       loops={"L0": ["0 <= k", ARG_INV0], "L1": ["0 <= i", ARG_INV1]},
-      ensures_ok=["forall(p, 0, outlength, toptr[p] == -1 or (0 <= toptr[p] < lenparents and parents[toptr[p]] == p))",
-                  # an empty group keeps -1, a non-empty one does not
-                  ],
+      ensures_ok=["forall(p, 0, outlength, toptr[p] == -1 or (0 <= toptr[p] < lenparents and parents[toptr[p]] == p))"],
+      per_spec={"_int": {"loops": {"L0": ["0 <= k", ARG_INV0], "L1": ["0 <= i", ARG_INV1] + ARG_FIRST(cmp, "i")},
+                         "ensures_ok": ARG_FIRST(cmp, "lenparents")},
+                "_uint": {"loops": {"L0": ["0 <= k", ARG_INV0], "L1": ["0 <= i", ARG_INV1] + ARG_FIRST(cmp, "i")},
+                          "ensures_ok": ARG_FIRST(cmp, "lenparents")}},
+      serves=["C03", "C12", "C13"])
+for name in ["awkward_reduce_argmax_bool_64", "awkward_reduce_argmin_bool_64"]:
+    K(name,
+      extents={"toptr": "outlength", "fromptr": "lenparents", "parents": "lenparents"},
+      requires=[PARENTS],
+      loops={"L0": ["0 <= k", ARG_INV0], "L1": ["0 <= i", ARG_INV1]},
+      ensures_ok=["forall(p, 0, outlength, toptr[p] == -1 or (0 <= toptr[p] < lenparents and parents[toptr[p]] == p))"],
       serves=["C03", "C12", "C13"])
 for name in ["awkward_reduce_argmax_complex", "awkward_reduce_argmin_complex"]:
     K(name,
